@@ -27,7 +27,7 @@ HT_NAMES = ["UNKNOWN", "STD_KBD", "NKRO_KBD", "MULTIMEDIA", "SYSTEM", "MOUSE", "
 DT_NAMES = ["Unknown", "Keyboard", "Mouse", "Joystick"]
 
 # physical locations: realistic ones, near-collisions (prefix, case, trailing blank, empty, blank), non-UTF-8 bytes
-PHYS_POOL = [b"u1", b"u2", b"u3", b"u4", b"u5", b"u6", b"", b" ", b"u1 ", b"U1", b"u", b"u1/input0", b"u1/input1",
+PHYS_POOL = [b"u1", b"u2", b"u3", b"u4", b"u5", b"u6", b"", b" ", b"u1 ", b"U1", b"u", b"u1/input0", b"u1/input1", b"u01", b"u-1.4", b"u-1.04",
              b"usb-0000:00:14.0-1/input0", b"usb-0000:00:14.0-1/input1", b"usb-0000:00:14.0-1", b"usb-0000:00:14.0-2/input0",
              b"isa0060/serio0/input0", b"\xff\x00", b"\xff", b"\x00", b"u\xc3\xa9", b"u\xe9"]
 
@@ -88,7 +88,10 @@ def gen_multiset0(rng, n):
         rng.shuffle(hs)
         return hs
     if rng.random() < 0.3:               # confusable locations
-        base = [b"u1", b"u1 ", b"U1", b"u", b"u1/input0", b"u1/input1", b"", b" "]
+        # locations that some coarser comparison would identify: case, white space, zero padding of numbers (natural order), a trailing
+        # separator, prefixes, Unicode look-alikes
+        base = [b"u1", b"u1 ", b"U1", b"u", b"u1/input0", b"u1/input1", b"", b" ", b"u01", b"u001", b"u1/", b"u-1.4", b"u-1.04", b"u-1.40",
+                b"usb-0000:00:14.0-1.4/input0", b"usb-0000:00:14.0-1.04/input0", b"\xef\xbd\x951", b"u\xc2\xa01", b"u1\x00"]
         phys = rng.sample(base, min(k, len(base)))
     else:
         phys = rng.sample(PHYS_POOL, min(k, len(PHYS_POOL)))
